@@ -14,7 +14,8 @@ one() {
   ids=$(python3 -c "
 import json,re
 m=json.load(open('$d/meta.json'))
-print(' '.join(sorted({re.match(r'(C\d\d)', x).group(1) for x in m['detected_by']})))")
+print('RETIRED' if m.get('retired') else ' '.join(sorted({re.match(r'(C\d\d)', x).group(1) for x in m['detected_by']})))")
+  if [ "$ids" = "RETIRED" ]; then echo "retired $n (duplicate of a re-based seed)"; return; fi
   if ! git -C "$wt" apply "/verif/$d/patch.diff" 2>/dev/null; then echo "NOAPPLY $n"; return; fi
   det=0; tot=0; msg=""
   for id in $ids; do
